@@ -292,11 +292,11 @@ class C17(Engine):
     ADDR_LINE = re.compile(r"^[ *!>]*(?:0x)?([0-9a-fA-F]+)(?=[:|])", re.M)
 
     def judge_stall(self, o, plan, res):
-        """The process exhausted its CPU or seam-event budget.  Decide between a hang and a
+        """The process exhausted its CPU or stdout-line budget.  Decide between a hang and a
         legitimately long listing (print/disasm/dump over a range that a damaged or high-placed
         image made huge): a listing is making progress when the addresses at the start of its
-        most recent lines are (nearly) all different; a loop prints the same addresses again, or
-        nothing.  Returns a violation key or None."""
+        lines never go back over the whole output of the command; a loop prints the same
+        addresses again, or nothing.  Returns a violation key or None."""
         pos = o.console_pos
         console = plan["console"]
         text = o.text()
@@ -311,9 +311,12 @@ class C17(Engine):
         if cmd in ("run", "call", "step", "", "-run"):
             # SIGINT is re-delivered every few yields while these execute
             return "hang:%s:not-stopped-by-repeated-sigint" % (cmd or "blank-line")
-        tail = text[-200000:]
-        addrs = self.ADDR_LINE.findall(tail)[-3000:]
-        if len(addrs) >= 200 and len(set(addrs)) >= 0.9 * len(addrs):
+        # only the output of the command that was executing counts
+        start = text.rfind("\nstopped> ") if plan["mode"] == "interactive" else 0
+        addrs = [int(a, 16) for a in self.ADDR_LINE.findall(text[max(start, 0):])]
+        descents = sum(1 for i in range(1, len(addrs)) if addrs[i] < addrs[i - 1])
+        if len(addrs) >= 200 and len(set(addrs)) >= 50 and descents <= 2:
+            # addresses never go back (one wrap at 2^32 allowed): the listing advances through a huge range
             res.probe("long_listing_not_judged")
             return None
         return "hang:%s" % cmd
